@@ -107,7 +107,7 @@ pub fn decide_extern(name: &str, s: &str, salt: u64) -> Result<(String, usize), 
                 Ok((format!("{:?}", Tok { n, s: s[..n].to_string() }), n))
             }
         }
-        "ext_probe0" | "ext_probe1" | "ext_probe2" | "ext_probe3" => Ok((format!("{:?}", ""), 0)),
+        n if n.starts_with("ext_probe") => Ok((format!("{:?}", ""), 0)),
         "ext_opt_a" => {
             let n = if s.starts_with('a') { 1 } else { 0 };
             Ok((format!("{:?}", &s[..n]), n))
@@ -129,7 +129,7 @@ pub fn decide_extern(name: &str, s: &str, salt: u64) -> Result<(String, usize), 
 pub fn extern_can_be_empty(path: &str) -> bool {
     let name = path.rsplit("::").next().unwrap_or(path);
     let name = name.strip_prefix("c_").unwrap_or(name);
-    matches!(name, "ext_probe0" | "ext_probe1" | "ext_probe2" | "ext_probe3" | "ext_opt_a")
+    name.starts_with("ext_probe") || name == "ext_opt_a"
 }
 
 /// the declared return type an extern rule must carry (None => String by default / `&str`.into())
@@ -171,6 +171,16 @@ macro_rules! checks {
 checks!(chk_true / c_chk_true, chk_false / c_chk_false, chk_even / c_chk_even, chk_short / c_chk_short,
         chk_hash / c_chk_hash, chk_no_b / c_chk_no_b);
 
+/// checks without a Debug bound (for derive sets that lack Debug; compile-only configurations)
+pub fn chk_any<T>(_v: &T) -> bool {
+    log("chk_any", String::new(), std::any::type_name::<T>());
+    true
+}
+pub fn c_chk_any<T>(_v: &T, ctx: &mut Ctx) -> bool {
+    ctx.calls.push(HookCall { name: "chk_any".into(), arg: String::new(), ty: String::new() });
+    true
+}
+
 macro_rules! char_checks {
     ($($name:ident),*) => {$(
         pub fn $name(c: char) -> bool {
@@ -205,7 +215,7 @@ fn value_slice<'a>(name: &str, s: &'a str, n: usize) -> &'a str {
     }
 }
 str_externs!(ext_word / c_ext_word, ext_probe0 / c_ext_probe0, ext_probe1 / c_ext_probe1, ext_probe2 / c_ext_probe2,
-             ext_probe3 / c_ext_probe3, ext_opt_a / c_ext_opt_a, ext_fail / c_ext_fail, ext_upto / c_ext_upto);
+             ext_probe3 / c_ext_probe3, ext_probe4 / c_ext_probe4, ext_probe5 / c_ext_probe5, ext_probe6 / c_ext_probe6, ext_probe7 / c_ext_probe7, ext_opt_a / c_ext_opt_a, ext_fail / c_ext_fail, ext_upto / c_ext_upto);
 
 // externs returning String directly
 pub fn ext_one(s: &str) -> Result<(String, usize), &'static str> {
